@@ -278,11 +278,17 @@ pub fn run(ctx: &Ctx, report: &mut Report) {
         }
         first
     });
+    // the same conversions from eight threads at once, each thread with its own mnemonics (state shared
+    // between threads - caches, "last parsed" hints - must not leak from one parse into another)
+    crate::fw::run_prop(ctx, report, crate::fw::PropSpec { name: "codes-concurrent", cases: ctx.tier.pick(48, 600), max_shrink_iters: 8 }, concurrent_strategy, oracle_concurrent);
     // the same conversions inside histories that also parse text that is no code's text
     crate::fw::run_prop(ctx, report, crate::fw::PropSpec { name: "codes-after-rejected-text", cases: ctx.tier.pick(40_000, 1_000_000), max_shrink_iters: 2000 }, history_strategy, oracle_history);
 }
 
 pub fn replay(check: &str, case: &serde_json::Value) -> Verdict {
+    if check == "codes-concurrent" {
+        return crate::fw::replay_case::<Concurrent, _>(case, oracle_concurrent);
+    }
     if check == "codes-after-rejected-text" {
         return crate::fw::replay_case::<History, _>(case, oracle_history);
     }
@@ -375,6 +381,70 @@ pub fn oracle_history(h: &History, st: &mut Stats) -> Verdict {
         st.nontrivial(h, || json!({"steps": h.steps.iter().map(|s| format!("{s:?}")).collect::<Vec<_>>()}));
     }
     Ok(())
+}
+
+/// (kind, mnemonic selector, case mask) per thread; every thread parses its own text 20 000 times
+#[derive(Clone, Debug, Serialize, Deserialize, PartialEq, Eq, Hash)]
+pub struct Concurrent {
+    pub threads: Vec<(Kind, u16, u16)>,
+}
+
+pub fn oracle_concurrent(c: &Concurrent, st: &mut Stats) -> Verdict {
+    let barrier = std::sync::Arc::new(std::sync::Barrier::new(c.threads.len()));
+    let mut handles = Vec::new();
+    for (kind, sel, mask) in c.threads.iter().cloned() {
+        let barrier = barrier.clone();
+        handles.push(std::thread::spawn(move || -> Result<u64, Fail> {
+            let table: Vec<(&str, u16)> = match kind {
+                Kind::Type => TYPE_MNEMONICS.to_vec(),
+                Kind::Qtype => TYPE_MNEMONICS.iter().chain(QTYPE_ONLY.iter()).cloned().collect(),
+                Kind::Class => CLASS_MNEMONICS.to_vec(),
+                Kind::Qclass => CLASS_MNEMONICS.iter().chain(QCLASS_ONLY.iter()).cloned().collect(),
+            };
+            let (m, v) = table[crate::gen::pick(sel, table.len())];
+            let text = with_mask(m, mask);
+            barrier.wait();
+            for i in 0..20_000u32 {
+                match catch(|| parse(kind, &text)) {
+                    Ok(Ok(got)) if got == v => {}
+                    Ok(other) => return Err(Fail::new("concurrent-parse-wrong", format!("iteration {i}: parsing {text:?} as {kind:?} while other threads parse other mnemonics gave {other:?}, expected {v}"))),
+                    Err(p) => return Err(Fail::new(panic_signature(&p), format!("parsing {text:?} panicked: {p}"))),
+                }
+                if i % 64 == 0 {
+                    // the rendered form must parse back as well
+                    match catch(|| parse(kind, &render(kind, v))) {
+                        Ok(Ok(got)) if got == v => {}
+                        Ok(other) => return Err(Fail::new("concurrent-roundtrip-wrong", format!("iteration {i}: {kind:?} {v} rendered and parsed back while other threads parse gave {other:?}"))),
+                        Err(p) => return Err(Fail::new(panic_signature(&p), format!("round trip of {kind:?} {v} panicked: {p}"))),
+                    }
+                }
+            }
+            Ok(20_000)
+        }));
+    }
+    let mut first: Option<Fail> = None;
+    for h in handles {
+        match h.join() {
+            Ok(Ok(n)) => st.evals(n),
+            Ok(Err(f)) => {
+                first.get_or_insert(f);
+            }
+            Err(_) => {
+                first.get_or_insert(Fail::new("harness-thread", "a parsing thread panicked"));
+            }
+        }
+    }
+    if let Some(f) = first {
+        return Err(f);
+    }
+    st.nontrivial(c, || json!({"threads": c.threads.iter().map(|t| format!("{t:?}")).collect::<Vec<_>>()}));
+    Ok(())
+}
+
+fn concurrent_strategy() -> impl proptest::strategy::Strategy<Value = Concurrent> {
+    use proptest::prelude::*;
+    let kind = || prop_oneof![3 => Just(Kind::Type), 2 => Just(Kind::Qtype), 1 => Just(Kind::Class), 1 => Just(Kind::Qclass)];
+    prop::collection::vec((kind(), any::<u16>(), prop_oneof![Just(0u16), any::<u16>()]), 4..=8).prop_map(|threads| Concurrent { threads })
 }
 
 fn history_strategy() -> impl proptest::strategy::Strategy<Value = History> {
